@@ -4,6 +4,7 @@ import c11lib as L
 NAME = "fillomino"
 MODULE = "cspuz.puzzle.fillomino"
 FUNC = "solve_fillomino"
+TIER1 = ("Fillomino", "solve_fillomino_model")
 
 
 def call(mod, pb):
@@ -36,6 +37,38 @@ def tier2(tier, rng):
     for (h, w) in [(1, 1), (1, 2), (2, 1)]:
         for g in L.all_grids(h, w, list(range(0, h * w + 1))):
             yield {"h": h, "w": w, "grid": g}
+
+
+def tier1_problems(tier, rng):
+    """program-capture tie: every clue layout of the boards with <= 2 cells and samples of those with 3..6 cells (both
+    orientations) over {empty, stray negatives, 1, 2, 3, h*w - 1, h*w, h*w + 1}, random larger / non-square boards up to
+    7x7 and 1xN / Nx1 (clue values at and beyond the number of cells, many clues, no clue, all clues), boards without
+    cells (ValueError in int_array: domain 1 .. 0) and clue grids with a missing or short last row (IndexError)"""
+    th = tier == "thorough"
+
+    def vals(h, w):
+        return sorted(set([0, -1, -3, 1, 2, 3, max(h * w - 1, 1), h * w, h * w + 1]))
+
+    for (h, w) in [(1, 1), (1, 2), (2, 1)]:
+        for g in L.all_grids(h, w, vals(h, w)):
+            yield {"h": h, "w": w, "grid": g}
+    for (h, w) in [(1, 3), (3, 1), (2, 2), (1, 4), (4, 1)]:
+        for g in L.sample(rng, L.all_grids(h, w, vals(h, w)), 300 if th else 30):
+            yield {"h": h, "w": w, "grid": g}
+    for (h, w) in [(1, 5), (5, 1), (1, 6), (6, 1), (2, 3), (3, 2)]:
+        for p in [0.2, 0.5, 0.8] * (8 if th else 2):
+            yield {"h": h, "w": w, "grid": L.random_grid(rng, h, w, vals(h, w), p)}
+    for (h, w) in [(3, 3), (2, 5), (5, 2), (4, 4), (3, 6), (6, 5), (1, 7), (7, 1), (7, 7), (4, 7), (7, 3), (5, 5), (2, 7)]:
+        for p in [0.5, 0.8, 0.95] * (3 if th else 1):
+            yield {"h": h, "w": w, "grid": L.random_grid(rng, h, w, vals(h, w) + [7, 12], p)}
+        yield {"h": h, "w": w, "grid": [[0] * w for _ in range(h)]}
+        yield {"h": h, "w": w, "grid": [[rng.choice([1, 2, 5, h * w]) for _ in range(w)] for _ in range(h)]}
+    for (h, w) in [(0, 0), (0, 2), (2, 0)]:
+        yield {"h": h, "w": w, "grid": [[] for _ in range(h)]}
+    yield {"h": 2, "w": 2, "grid": [[1, 0]]}            # missing row
+    yield {"h": 2, "w": 2, "grid": [[1, 0], [0]]}       # short last row
+    yield {"h": 1, "w": 3, "grid": [[-1, 2]]}
+    yield {"h": 3, "w": 1, "grid": [[0], [5]]}
 
 
 def big(tier, rng):
